@@ -14,6 +14,7 @@ use reed_solomon_simd::engine::{DefaultEngine, Engine};
 use reed_solomon_simd::rate::{DefaultRateDecoder, DefaultRateEncoder, RateDecoder, RateEncoder};
 use reed_solomon_simd::verif_hooks as vh;
 
+#[cfg(not(no_aarch64_port))]
 type DefaultAarch64 = crate::default_aarch64_port::DefaultEngine;
 
 const ISA_NAMES: [&str; 4] = ["portable", "ssse3", "avx2", "neon"];
@@ -163,7 +164,13 @@ pub fn child(args: &[String]) {
             hash_shards(&mut digest, &restored);
             step(judge("DefaultRate<DefaultEngine> round", best, &[vh::PRIM_FFT, vh::PRIM_IFFT, vh::PRIM_MUL, vh::PRIM_EVAL_POLY]), &mut log, &mut fail);
         } else {
+            #[cfg(no_aarch64_port)]
+            {
+                fail = Some("AArch64 arm not available in this build".to_string());
+            }
             // AArch64 selection logic, ported at build time over the emulated Neon engine
+            #[cfg(not(no_aarch64_port))]
+            {
             let best = if mask & vh::FEATURE_NEON != 0 { vh::ISA_NEON } else { vh::ISA_PORTABLE };
             let e = DefaultAarch64::new();
             step(judge("aarch64 DefaultEngine::new", best, &[]), &mut log, &mut fail);
@@ -207,6 +214,7 @@ pub fn child(args: &[String]) {
                 if restored != originals[..m].to_vec() && fail.is_none() {
                     fail = Some(format!("aarch64 DefaultRate({k},{r}) under mask {mask} restored wrong data"));
                 }
+            }
             }
         }
     });
@@ -275,6 +283,7 @@ pub fn run(ctx: &Ctx, rep: &mut Report) {
     for mask in [0u32, vh::FEATURE_SSSE3, vh::FEATURE_AVX2, vh::FEATURE_AVX2 | vh::FEATURE_SSSE3] {
         plans.push(("x86", mask));
     }
+    #[cfg(not(no_aarch64_port))]
     for mask in [0u32, vh::FEATURE_NEON] {
         plans.push(("aarch64", mask));
     }
